@@ -350,7 +350,7 @@ func c16Record(st *vstats.Collector, c *c16Case, g *c16Gen, extra ...string) {
 	if nt && st.WantSample() {
 		sample = map[string]any{"history": c.hist, "soft": c.softDiv}
 	}
-	st.Case(vstats.FP(strings.Join(c.hist, ";")), nt, labels, sample)
+	st.Case(vstats.FP(strings.Join(c.fp, ";")), nt, labels, sample)
 	st.Count("ops", int64(len(c.hist)))
 	for k, n := range c.known {
 		for i := 0; i < n; i++ {
